@@ -248,6 +248,88 @@ def report(ctx, exe, r, what_prefix=""):
         ctx.violation("correspondence", what_prefix + "model and implementation differ at op %s" % k, replay, no_input=True)
 
 
+_FLINE = re.compile(r"^F (\d+)((?: \d+)+) *$")
+
+
+def parse_fresh(out, ncases):
+    res = [None] * ncases
+    for line in out.splitlines():
+        m = _FLINE.match(line)
+        if m and int(m.group(1)) < ncases and res[int(m.group(1))] is None:
+            res[int(m.group(1))] = [int(x) for x in m.group(2).split()]
+    return res
+
+
+def fresh_oracle(n, cap, order, nev, d):
+    """what every theorem assumes of the initial state, checked on the implementation's output only"""
+    if d is None:
+        return "no dump of the freshly constructed state"
+    if n == 0:
+        return None if d == [0] else "a state with 0 track slots was constructed without a RuntimeError"
+    if d[0] != 1:
+        return "construction of the state failed"
+    exp = [n, n if order == 1 else 0, n + 1, n, nev, cap, 1 if cap > 0 and nev > 0 else 0]
+    if d[1:8] != exp:
+        return ("sizes of parents/indices/secondary_counts/vacancies/track_counters/initializers/bool(data) are %s, expected %s"
+                % (d[1:8], exp))
+    if d[8:14] != [0, 0, n, 0, 0, 0]:
+        return "initial counters %s, expected num_vacancies = slots and 0 elsewhere" % d[8:14]
+    p = 14
+    if d[p:p + n] != [0] * n:
+        return "a fresh track slot is not inactive"
+    p += n
+    if d[p:p + n] != [0] * n:
+        return "a fresh parents entry is not null"
+    p += n
+    if d[p:p + n] != list(range(1, n + 1)):
+        return "fresh vacancies are not 0..slots-1"
+    p += n
+    if d[p:] != [0] * nev:
+        return "fresh track counters are not all zero"
+    return None
+
+
+def run_fresh(ctx, exe):
+    """differential + oracle on the freshly constructed state (TrackInitData.hh resize,
+    CoreState constructor) for a grid of (slots, capacity, order, max_events)"""
+    r = ctx.rng
+    cfgs = [(n, cap, order, nev) for n in (0, 1, 2, 3, 8, 16, 33) for cap in (0, 1, 2, 7, 64)
+            for order in (0, 1, 2) for nev in (1, 3)]
+    for _ in range(24 if ctx.tier == "quick" else 200):
+        cfgs.append((r.choice([1, 2, 5, 9, 17, 64, r.randint(1, 128)]), r.choice([1, 3, r.randint(1, 300)]),
+                     r.choice([0, 1, 1, 2]), r.choice([1, 2, 4])))
+    txt = "".join("CASE %d %d %d %d 64 0\n" % c for c in cfgs)
+    rc, out = ctx.run_harness(exe, input=txt, env=HENV, timeout=900)
+    why = gen.abnormal(rc, out, "DONE %d" % len(cfgs) in out)
+    impl = parse_fresh(out, len(cfgs))
+    mrc, mout = vlib.sh([MODEL_EXE["exe"]], input=txt, timeout=600)
+    if mrc != 0:
+        raise RuntimeError("extracted model failed on the fresh-state cases: " + mout[-1000:])
+    model = parse_fresh(mout, len(cfgs))
+    nbad = 0
+    for c, im, mo in zip(cfgs, impl, model):
+        ctx.case(("fresh",) + c, nontrivial=c[0] > 1)
+        ctx.count("fresh-state:order%d" % c[2])
+        orc = fresh_oracle(c[0], c[1], c[2], c[3], im)
+        if orc is None and im == mo:
+            continue
+        nbad += 1
+        if nbad > 2:
+            continue
+        replay = {"slots": c[0], "capacity": c[1], "track_order": ["none", "init_charge", "reindex_shuffle"][c[2]],
+                  "max_events": c[3], "harness_input": "CASE %d %d %d %d 64 0\n" % c, "impl_dump": im, "model_dump": mo,
+                  "dump_layout": "ok |parents| |indices| |secondary_counts| |vacancies| |track_counters| |initializers| bool(data) | 6 counters | n statuses | n parents+1 | n vacancies+1 | track counters"}
+        if im is None and why:
+            replay["why"], replay["output_tail"] = why, out[-600:]
+            ctx.violation("crash", "the real code crashed / aborted while constructing a state [%s]" % why, replay)
+        elif orc is not None:
+            replay["property_violation"] = orc
+            ctx.violation("property", "the freshly constructed state violates C02's initial invariants on the real code: " + orc, replay)
+        else:
+            ctx.violation("correspondence", "model of the state construction (coq/C02/InitData.v) and implementation differ", replay, no_input=True)
+    return len(cfgs)
+
+
 def run(ctx):
     try:
         _run(ctx)
@@ -272,7 +354,7 @@ def _run(ctx):
     ]
     ctx.assumptions += [
         "calling protocol of the Stepper's action sequence: [insert+]extend-from-primaries, initialize-tracks, pre-step..post, extend-from-secondaries; Reset after an error; reseed only when drained (other orders are `Misuse` in the model)",
-        "drain_terminates is proved for the abstract measure only (partial)",
+        "drain_terminates: the physics is an arbitrary outcome strategy that is finitely productive w.r.t. some potential (hypothesis of the theorem)",
     ]
     proofs_ok = ctx.coq_prove("Properties_C02.v")
     ok, log = ctx.coq_build(["C02/Run.vo"])
@@ -288,6 +370,9 @@ def _run(ctx):
     # tree as it is now (they override the copies inside libceleritas)
     exe = build_util.compile_with_repo_sources(ctx, [os.path.join(HERE, "harness", "trackinit.cc")], "trackinit",
                                                build_util.TRACK_TUS, LIBS)
+    t = time.time()
+    nf = run_fresh(ctx, exe)
+    ctx.log("fresh-state differential: %d configurations in %.1fs" % (nf, time.time() - t))
     cases = load_corpus()
     ncorp = len(cases)
     r = ctx.rng
